@@ -2,7 +2,8 @@
 //!
 //! stdin: cases in the line protocol of `lean/SteelVerif/C14/Driver.lean`
 //!   case <id> | module <k> | def <n> | prov <n> | cprov <n> | req <spec> | view <n>… | end
-//!   request | req <spec> | def <n> | mode ok|syntax|freeid|runtime | obs <n>… | end | poke | endcase
+//!           | mac <n> | mprov <n> | fsprov <n>   (define-syntax; provide it as an identifier / as (for-syntax n))
+//!   request | req <spec> | def <n> | mode ok|syntax|freeid|runtime|form:<kw> | obs <n>… | end | poke | endcase
 //!   <spec> ::= <k>[~<spelling>] | p:<prefix>:<spec> | o:<id>[=<to>],…:<spec>
 //!   inside a module: `dir <sub/dir>` puts the module's file into that sub-directory of the case.
 //!   <spelling> selects how the (relative) path in the require form is written: 0 shortest, 1 with a
@@ -15,10 +16,11 @@
 //! For every case ONE engine is created and the requests are evaluated on it in order.  Every define of
 //! module k is bound to the tag `'(mk . name)` (names starting with f/g: a one-argument function
 //! returning the tag; names h2..h6: a function of that many parameters whose first parameter is a
-//! callback it applies to 1, contract `(->/c (->/c int? int?) int? … any/c)` when provided through
+//! callback it applies to 1, contract `(->/c (->/c c14-int? c14-int?) c14-int? … any/c)` (`c14-int?` = `int?`
+//! that counts its evaluations: `#<n>` in the output) when provided through
 //! contract/out), top-level defines of request i to `'(topi . name)`.  Each module body calls the
-//! host function `(c14-bump! k)` and registers a probe closure with `(c14-probe! k (lambda () …))` that
-//! reports, through `(c14-report! k "name" value)`, what each of its `view` names is bound to.
+//! host function `(c14-bump! k)` and registers, per `view` name, a probe closure with `(c14-probe! k (lambda () …))`
+//! that reports, through `(c14-report! k "name" value)`, what the name is bound to.
 //! stdout, per request (same canonical form as the driver):
 //!   req <i> <ok|err:syntax|err:free-id|err:runtime|err:other:<Kind>>
 //!   obs <name>=<value|err:free-id> …
@@ -40,8 +42,10 @@ use steel::SteelVal;
 
 thread_local! {
     static BUMPS: RefCell<Vec<usize>> = const { RefCell::new(Vec::new()) };
-    static PROBES: RefCell<BTreeMap<usize, SteelVal>> = const { RefCell::new(BTreeMap::new()) };
+    static PROBES: RefCell<BTreeMap<usize, Vec<SteelVal>>> = const { RefCell::new(BTreeMap::new()) };
     static REPORT: RefCell<Vec<(usize, String, String)>> = const { RefCell::new(Vec::new()) };
+    /// evaluations of the contract predicate `c14-int?` since the last `(c14-reset!)`
+    static CHECKS: RefCell<usize> = const { RefCell::new(0) };
 }
 
 #[derive(Clone, Debug)]
@@ -132,6 +136,9 @@ struct Module {
     provs: Vec<(String, bool)>,
     reqs: Vec<Spec>,
     views: Vec<String>,
+    macs: Vec<String>,
+    mprovs: Vec<String>,
+    fsprovs: Vec<String>,
 }
 
 #[derive(Default, Clone, Debug)]
@@ -167,6 +174,12 @@ fn hof_arity(name: &str) -> Option<usize> {
     }
 }
 
+/// A name whose last component (after the last `.` or `-`) starts with `m` is a macro: `(define-syntax name
+/// (syntax-rules () [(_ a) '(mk . name)]))`, observed by expanding `(name 1)`.
+fn is_mac(name: &str) -> bool {
+    name.rsplit(|c| c == '.' || c == '-').next().unwrap_or(name).starts_with('m')
+}
+
 fn define_text(tag: &str, name: &str) -> String {
     if let Some(n) = hof_arity(name) {
         let params: Vec<String> = (1..n).map(|i| format!("a{i}")).collect();
@@ -180,32 +193,36 @@ fn define_text(tag: &str, name: &str) -> String {
 
 fn contract_text(name: &str) -> String {
     match hof_arity(name) {
-        Some(n) => format!("(->/c (->/c int? int?) {}any/c)", "int? ".repeat(n - 1)),
-        None => "(->/c int? any/c)".to_string(),
+        Some(n) => format!("(->/c (->/c c14-int? c14-int?) {}any/c)", "c14-int? ".repeat(n - 1)),
+        None => "(->/c c14-int? any/c)".to_string(),
     }
 }
 
-/// The expression that reveals what `name` is bound to: a tag; a one-parameter function (its tag and
-/// whether a call with a string argument is rejected by a contract); or, for the names h2..h6, a
-/// function of that many parameters (its tag for a good call, and whether a callback that returns a
+/// The expression that reveals what `name` is bound to: a tag; a one-parameter function (how often the
+/// contract predicate `c14-int?` is evaluated during a good call, its tag, and whether a call with a string
+/// argument is rejected by a contract); or, for the names h2..h6, a function of that many parameters (the
+/// number of predicate evaluations and the tag for a good call, and whether a callback that returns a
 /// string and a string in the last position are rejected).
 fn obs_expr(name: &str) -> String {
+    if is_mac(name) {
+        return format!("({name} 1)");
+    }
     if let Some(n) = hof_arity(name) {
         let ints: Vec<String> = (1..n).map(|i| i.to_string()).collect();
         let mut bad = ints.clone();
         *bad.last_mut().unwrap() = "\"s\"".to_string();
         return format!(
-            "(let ((c14-v {name})) (if (function? c14-v) (list 'hof (with-handler (lambda (e) 'cerr) (c14-v (lambda (x) x) {good})) (with-handler (lambda (e) 'cerr) (c14-v (lambda (x) \"s\") {good})) (with-handler (lambda (e) 'cerr) (c14-v (lambda (x) x) {bad}))) c14-v))",
+            "(let ((c14-v {name})) (if (function? c14-v) (let* ((c14-r (begin (c14-reset!) (with-handler (lambda (e) 'cerr) (c14-v (lambda (x) x) {good})))) (c14-n (c14-count))) (list 'hof c14-n c14-r (with-handler (lambda (e) 'cerr) (c14-v (lambda (x) \"s\") {good})) (with-handler (lambda (e) 'cerr) (c14-v (lambda (x) x) {bad})))) c14-v))",
             good = ints.join(" "),
             bad = bad.join(" ")
         );
     }
     format!(
-        "(let ((c14-v {name})) (if (function? c14-v) (list 'func (c14-v 0) (with-handler (lambda (e) 'cerr) (c14-v \"s\"))) c14-v))"
+        "(let ((c14-v {name})) (if (function? c14-v) (let* ((c14-r (begin (c14-reset!) (c14-v 0))) (c14-n (c14-count))) (list 'func c14-n c14-r (with-handler (lambda (e) 'cerr) (c14-v \"s\")))) c14-v))"
     )
 }
 
-/// `(m3 . x)` -> `m3.x`; `(func (m0 . f) cerr)` -> `fn:m0.f:c`; `(func (m0 . f) (m0 . f))` -> `fn:m0.f:p`.
+/// `(m3 . x)` -> `m3.x`; `(func 1 (m0 . f) cerr)` -> `fn:m0.f:c#1`; `(func 0 (m0 . f) (m0 . f))` -> `fn:m0.f:p#0`.
 fn canon(text: &str) -> String {
     fn tag(t: &str) -> Option<String> {
         let t = t.trim();
@@ -217,6 +234,21 @@ fn canon(text: &str) -> String {
         Some(format!("{a}.{b}"))
     }
     let t = text.trim();
+    // (func <n> …) / (hof <n> …): <n> = evaluations of c14-int? during the good call
+    let (t, count): (String, String) = {
+        let mut out = (t.to_string(), String::new());
+        for head in ["(func ", "(hof "] {
+            if let Some(rest) = t.strip_prefix(head) {
+                if let Some((n, tail)) = rest.split_once(' ') {
+                    if !n.is_empty() && n.chars().all(|c| c.is_ascii_digit()) {
+                        out = (format!("{head}{tail}"), format!("#{n}"));
+                    }
+                }
+            }
+        }
+        out
+    };
+    let t = t.as_str();
     if let Some(rest) = t.strip_prefix("(hof ") {
         // (hof <good> <bad callback> <bad last argument>)
         if let Some(close) = rest.find(')') {
@@ -230,7 +262,7 @@ fn canon(text: &str) -> String {
                 } else {
                     format!("?{}", tail.replace(' ', "_"))
                 };
-                return format!("fn:{tg}:{kind}");
+                return format!("fn:{tg}:{kind}{count}");
             }
         }
         return format!("val:{}", t.replace(' ', "_"));
@@ -246,7 +278,7 @@ fn canon(text: &str) -> String {
                 } else {
                     format!("?{}", tail.replace(' ', "_"))
                 };
-                return format!("fn:{tg}:{kind}");
+                return format!("fn:{tg}:{kind}{count}");
             }
         }
     }
@@ -267,7 +299,7 @@ fn module_text(k: usize, m: &Module, dirs: &[String]) -> String {
     for r in &m.reqs {
         s.push_str(&format!("(require {})\n", spec_sexp(r, &m.dir, dirs)));
     }
-    if !m.provs.is_empty() {
+    if !m.provs.is_empty() || !m.mprovs.is_empty() || !m.fsprovs.is_empty() {
         s.push_str("(provide");
         for (n, c) in &m.provs {
             if *c {
@@ -276,18 +308,28 @@ fn module_text(k: usize, m: &Module, dirs: &[String]) -> String {
                 s.push_str(&format!(" {n}"));
             }
         }
+        for n in &m.mprovs {
+            s.push_str(&format!(" {n}"));
+        }
+        for n in &m.fsprovs {
+            s.push_str(&format!(" (for-syntax {n})"));
+        }
         s.push_str(")\n");
     }
     for d in &m.defs {
         s.push_str(&define_text(&format!("m{k}"), d));
         s.push('\n');
     }
-    s.push_str(&format!("(c14-bump! {k})\n"));
-    s.push_str(&format!("(c14-probe! {k} (lambda () (c14-report! {k} \"\" 0)"));
-    for v in &m.views {
-        s.push_str(&format!("\n  (c14-report! {k} \"{v}\" {})", obs_expr(v)));
+    for d in &m.macs {
+        s.push_str(&format!("(define-syntax {d} (syntax-rules () [(_ a) '(m{k} . {d})]))\n"));
     }
-    s.push_str("))\n");
+    s.push_str(&format!("(c14-bump! {k})\n"));
+    // one probe closure per name, each its own top-level expression: what one name expands / resolves to must
+    // not depend on which other names the same expression mentions
+    s.push_str(&format!("(c14-probe! {k} (lambda () (c14-report! {k} \"\" 0)))\n"));
+    for v in &m.views {
+        s.push_str(&format!("(c14-probe! {k} (lambda () (c14-report! {k} \"{v}\" {})))\n", obs_expr(v)));
+    }
     s
 }
 
@@ -299,6 +341,14 @@ fn request_text(i: usize, r: &Request, dirs: &[String]) -> String {
     for d in &r.defs {
         s.push_str(&define_text(&format!("top{i}"), d));
         s.push('\n');
+    }
+    if let Some(form) = r.mode.strip_prefix("form:") {
+        // a require with a list form `parse_require_object_inner` has no arm for
+        let target = spec_sexp(&Spec::Path(0, 0), "", dirs);
+        match form {
+            "for-syntax-spec" => s.push_str(&format!("(require (for-syntax (only-in {target} x)))\n")),
+            kw => s.push_str(&format!("(require ({kw} {target} (x y)))\n")),
+        }
     }
     match r.mode.as_str() {
         "syntax" => s.push_str("(c14-bad-macro 1 2)\n"),
@@ -337,9 +387,15 @@ fn run_case(c: &Case, root: &PathBuf, out: &mut Vec<String>) {
     engine.register_fn("c14-bump!", |k: usize| BUMPS.with(|b| b.borrow_mut().push(k)));
     engine.register_fn("c14-probe!", |k: usize, f: SteelVal| {
         PROBES.with(|p| {
-            p.borrow_mut().insert(k, f);
+            p.borrow_mut().entry(k).or_default().push(f);
         })
     });
+    engine.register_fn("c14-int?", |v: SteelVal| -> bool {
+        CHECKS.with(|c| *c.borrow_mut() += 1);
+        matches!(v, SteelVal::IntV(_))
+    });
+    engine.register_fn("c14-reset!", || CHECKS.with(|c| *c.borrow_mut() = 0));
+    engine.register_fn("c14-count", || -> usize { CHECKS.with(|c| *c.borrow()) });
     engine.register_fn("c14-report!", |k: usize, name: String, v: SteelVal| {
         REPORT.with(|r| r.borrow_mut().push((k, name, format!("{v}"))))
     });
@@ -353,7 +409,12 @@ fn run_case(c: &Case, root: &PathBuf, out: &mut Vec<String>) {
         std::fs::write(dir.join(format!("request{i}.scm")), &text).ok();
         let status = match engine.compile_and_run_raw_program(text) {
             Ok(_) => "ok".to_string(),
-            Err(e) => err_kind(&e),
+            Err(e) => {
+                if std::env::var("C14_VERBOSE").is_ok() {
+                    eprintln!("case {} req {i}: {}", c.id, format!("{e}").lines().next().unwrap_or(""));
+                }
+                err_kind(&e)
+            }
         };
         out.push(format!("req {i} {status}"));
         let mut obs = Vec::new();
@@ -365,10 +426,17 @@ fn run_case(c: &Case, root: &PathBuf, out: &mut Vec<String>) {
             obs.push(format!("{n}={v}"));
         }
         out.push(format!("obs {}", obs.join(" ")).trim_end().to_string());
-        let probes: Vec<(usize, SteelVal)> = PROBES.with(|p| p.borrow().iter().map(|(k, v)| (*k, v.clone())).collect());
-        for (k, f) in probes {
+        let probes: Vec<(usize, Vec<SteelVal>)> =
+            PROBES.with(|p| p.borrow().iter().map(|(k, v)| (*k, v.clone())).collect());
+        for (k, fs) in probes {
             REPORT.with(|p| p.borrow_mut().clear());
-            let res = engine.call_function_with_args(f, vec![]);
+            let mut res = Ok(SteelVal::Void);
+            for f in fs {
+                let r = engine.call_function_with_args(f, vec![]);
+                if r.is_err() {
+                    res = r;
+                }
+            }
             let mut items = Vec::new();
             REPORT.with(|p| {
                 for (kk, n, v) in p.borrow().iter() {
@@ -451,8 +519,61 @@ fn run_case(c: &Case, root: &PathBuf, out: &mut Vec<String>) {
     out.push("endcase".into());
 }
 
+/// `c14 --raw <dir>`: free-form experiments / replays.  stdin: `file <relative path>` … `.` writes a file
+/// under <dir>, `run` … `.` evaluates a program on the one engine of the session (current directory = <dir>);
+/// prints `ok <last value>` or `<error kind> <first line of the message>` per program, `cnt <bumps>` after each.
+fn raw_mode(dir: &str) {
+    let root = PathBuf::from(dir);
+    let _ = std::fs::remove_dir_all(&root);
+    std::fs::create_dir_all(&root).unwrap();
+    std::env::set_current_dir(&root).unwrap();
+    let mut src = String::new();
+    std::io::stdin().read_to_string(&mut src).unwrap();
+    let mut engine = Engine::new();
+    engine.register_fn("c14-bump!", |k: usize| BUMPS.with(|b| b.borrow_mut().push(k)));
+    let mut lines = src.lines();
+    while let Some(l) = lines.next() {
+        let toks: Vec<&str> = l.split_whitespace().collect();
+        let mut body = String::new();
+        if matches!(toks.as_slice(), ["file", _] | ["run"]) {
+            for b in lines.by_ref() {
+                if b.trim() == "." {
+                    break;
+                }
+                body.push_str(b);
+                body.push('\n');
+            }
+        }
+        match toks.as_slice() {
+            ["file", path] => {
+                let p = root.join(path);
+                if let Some(d) = p.parent() {
+                    std::fs::create_dir_all(d).unwrap();
+                }
+                std::fs::write(p, body).unwrap();
+            }
+            ["run"] => {
+                let res = catch_unwind(AssertUnwindSafe(|| engine.compile_and_run_raw_program(body.clone())));
+                match res {
+                    Ok(Ok(vals)) => println!("ok {}", vals.last().map(|v| format!("{v}")).unwrap_or_default()),
+                    Ok(Err(e)) => println!("{} {}", err_kind(&e), format!("{e}").lines().next().unwrap_or("")),
+                    Err(_) => println!("panic"),
+                }
+                let b: Vec<String> = BUMPS.with(|b| b.borrow().iter().map(|k| k.to_string()).collect());
+                println!("cnt {}", b.join(" "));
+            }
+            _ => {}
+        }
+    }
+}
+
 fn main() {
     let args: Vec<String> = std::env::args().collect();
+    if args.get(1).map(|s| s.as_str()) == Some("--raw") {
+        std::panic::set_hook(Box::new(|_| {}));
+        raw_mode(args.get(2).map(|s| s.as_str()).unwrap_or("/verif/.build/C14/raw"));
+        return;
+    }
     let root = PathBuf::from(args.get(1).cloned().unwrap_or_else(|| "/verif/.build/C14/mods".into()));
     std::fs::create_dir_all(&root).unwrap();
     let root = std::fs::canonicalize(&root).unwrap();
@@ -486,6 +607,9 @@ fn main() {
             (["def", n], 1) => m.defs.push(n.to_string()),
             (["prov", n], 1) => m.provs.push((n.to_string(), false)),
             (["cprov", n], 1) => m.provs.push((n.to_string(), true)),
+            (["mac", n], 1) => m.macs.push(n.to_string()),
+            (["mprov", n], 1) => m.mprovs.push(n.to_string()),
+            (["fsprov", n], 1) => m.fsprovs.push(n.to_string()),
             (["view", ns @ ..], 1) => m.views.extend(ns.iter().map(|s| s.to_string())),
             (["req", s], 1) => match parse_spec(&s.split(':').collect::<Vec<_>>()) {
                 Some(sp) => m.reqs.push(sp),
